@@ -158,6 +158,7 @@ def run(ctx):
         "streaming_reachable_bodies": len(reach), "streaming_external_callees": n_ext, "vec_push_sites": pushes,
         "function_instances_analysed": len(A.ip.visited), "interpreter_stats": A.ip.stats,
     })
+    ctx.include("C13", "the streaming parser consumed as an iterator terminates: after None or an error it yields None forever, and every event consumes input")
     ctx.assumptions = [ASSUMPTIONS[k] for k in ("A1", "A2", "A3", "A5", "A7")]
     ctx.explanation = (
         "Abstract interpretation of both parsers from their public entry points over an arbitrary input slice. Every parser "
